@@ -23,7 +23,12 @@ class LenAbs:
         self.lens = {}
         self.opaque = {}
         self.keep = []
-        self.cache_over = {}
+        self.memo = {}        # (term id, polarity) -> abstraction
+        self.memo_int = {}    # term id -> abstraction of an integer term
+        self.memo_len = {}
+        self.known_true = {}  # term id -> list of scope-id sets under which it was found to hold
+        self.known_false = {} # (term id, scope ids) -> number of facts at the time
+        self.nfacts = 0
         self.n = 0
 
     # ---- terms
@@ -48,6 +53,15 @@ class LenAbs:
         return v
 
     def int_term(self, t):
+        i = t.get_id()
+        r = self.memo_int.get(i)
+        if r is None:
+            r = self._int_term(t)
+            self.memo_int[i] = r
+            self.keep.append(t)
+        return r
+
+    def _int_term(self, t):
         if z3.is_int_value(t):
             return t
         if not z3.is_app(t):
@@ -113,6 +127,15 @@ class LenAbs:
         return self._abs(t, False)
 
     def _abs(self, t, pos):
+        key = (t.get_id(), pos)
+        r = self.memo.get(key)
+        if r is None:
+            r = self._abs1(t, pos)
+            self.memo[key] = r
+            self.keep.append(t)
+        return r
+
+    def _abs1(self, t, pos):
         no_info = z3.BoolVal(True) if pos else z3.BoolVal(False)
         if z3.is_quantifier(t) or not z3.is_app(t):
             return no_info
@@ -169,14 +192,30 @@ class LenAbs:
         a = z3.simplify(self.over(t))
         if not z3.is_true(a):
             self.solver.add(a)
+            self.nfacts += 1
 
     def must_hold(self, t, scopes=()):
         """True only if the context entails t (decided on lengths alone)"""
+        i = t.get_id()
+        sc = frozenset(s.get_id() for s in scopes)
+        for known in self.known_true.get(i, ()):
+            if known <= sc:
+                return True        # the context only grows: what held still holds
+        if self.known_false.get((i, sc)) == self.nfacts:
+            return False
         g = self.under(t)
         if z3.is_false(z3.simplify(g)):
-            return False
-        extra = [self.over(s) for s in scopes]
-        return self.solver.check(*(extra + [z3.Not(g)])) == z3.unsat
+            r = False
+        else:
+            extra = [self.over(s) for s in scopes]
+            r = self.solver.check(*(extra + [z3.Not(g)])) == z3.unsat
+        self.keep.append(t)
+        self.keep.extend(scopes)
+        if r:
+            self.known_true.setdefault(i, []).append(sc)
+        else:
+            self.known_false[(i, sc)] = self.nfacts
+        return r
 
     def infeasible(self, t, scopes=()):
         """True only if the context together with t is unsatisfiable (decided on lengths alone)"""
